@@ -412,7 +412,7 @@ def check_property(prop, tier, seed, workers, replay=None, budget_s=None, run_li
                 return 2
             if got is not None:
                 log("replayed: %s: %s" % (got, r["violation"].get("detail")))
-                for l in (r.get("trace") or [])[-40:]:
+                for l in (r.get("trace") or [])[-int(os.environ.get("VERIF_SHOW_TRACE", "40")):]:
                     log("  " + l)
                 if want is None or want == got:
                     log("VIOLATION property=%s replay=%s" % (prop, os.path.abspath(replay)))
@@ -420,6 +420,9 @@ def check_property(prop, tier, seed, workers, replay=None, budget_s=None, run_li
                 log("note: the file recorded %s" % want)
                 log("VIOLATION property=%s replay=%s" % (prop, os.path.abspath(replay)))
                 return 1
+            if os.environ.get("VERIF_SHOW_TRACE"):
+                for l in (r.get("trace") or [])[-int(os.environ["VERIF_SHOW_TRACE"]):]:
+                    log("  " + l)
             log("replay passes on this tree")
             return 0
 
